@@ -319,7 +319,7 @@ func (m *Machine) summarize(fn *ssa.Function, args []Value, env []Value, caller 
 			results = append(results, localResult{g, v})
 		case 1: // go panic on this local path: only fine if the path is infeasible on its own
 			lits := append([]*Term(nil), ctx.guard...)
-			res, _ := m.solver.Check(lits, false, 0)
+			res, _ := m.solverCF.Check(lits, false, 0)
 			if res != Unsat {
 				return nil, nil, false
 			}
@@ -494,6 +494,7 @@ var pureIntrinsics = map[string]bool{
 	"strings.TrimLeft": true, "strings.TrimRight": true, "strings.Split": true, "strings.SplitN": true, "strings.IndexByte": true,
 	"unicode.Is": true, "unicode.ToLower": true, "unicode/utf8.ValidString": true, "unicode/utf8.RuneLen": true,
 	"math.Pow": true, "strconv.Itoa": true, "strconv.FormatInt": true, "strconv.FormatUint": true,
+	"github.com/nlnwa/whatwg-url/internal/whatwgmodel.itoa": true,
 	"strings.Clone": true, "internal/stringslite.Clone": true, "strconv.cloneString": true,
 }
 
